@@ -8,24 +8,38 @@ name, breaks, ids = sys.argv[1], sys.argv[2], sys.argv[3:]
 d = '/verif/seeded/' + name
 patch = d + '/patch.diff'
 def sh(cmd, **kw): return subprocess.run(cmd, shell=True, capture_output=True, text=True, **kw)
-if sh('git -C /repo status --porcelain').stdout.strip():
-    print('repo not clean'); sys.exit(2)
-if sh('git -C /repo apply ' + patch).returncode != 0:
-    print('patch does not apply'); sys.exit(2)
+LAB = os.environ.get('LABNAME')
 results = []
-try:
-    os.makedirs('/verif/scratch/seedrun', exist_ok=True)
-    sh('cp /verif/known_findings.json /verif/scratch/seedrun/')
+if LAB is not None:
+    # isolated evaluation: scratch worktree + harness copy (tools/lab_eval.sh), /repo untouched
     for cid in ids:
         t0 = time.time()
-        r = sh('cd /verif && VERIF_ROOT=/verif/scratch/seedrun ./run.sh %s %s' % (cid, os.environ.get('TIER', 'quick')))
-        keys = re.findall(r'violation-key (.*)', r.stdout)
-        summ = re.findall(r'^SUMMARY.*', r.stdout, re.M)
-        results.append({'check': cid, 'tier': os.environ.get('TIER', 'quick'), 'exit': r.returncode, 'violation_keys': [k.strip() for k in keys],
-                        'summary': summ[0] if summ else '', 'wall_s': round(time.time() - t0, 1)})
-        print(cid, 'exit', r.returncode, keys[:6])
-finally:
-    sh('git -C /repo checkout -- . ; git -C /repo clean -fdq')
+        r = sh('LABNAME=%s /verif/tools/lab_eval.sh %s %s %s %s' % (LAB, name, os.environ.get('VERIF_SEED', '1'), os.environ.get('TIER', 'quick'), cid))
+        m = re.search(r'exit=(\d+) keys=\[(.*?)\] (.*)', r.stdout)
+        if not m:
+            print('lab run failed:', r.stdout[-500:], r.stderr[-500:]); sys.exit(2)
+        keys = [k.strip() for k in m.group(2).split(';') if k.strip()]
+        results.append({'check': cid, 'tier': os.environ.get('TIER', 'quick'), 'exit': int(m.group(1)), 'violation_keys': keys,
+                        'summary': 'SUMMARY ' + m.group(3), 'wall_s': round(time.time() - t0, 1)})
+        print(cid, 'exit', m.group(1), keys[:6])
+else:
+    if sh('git -C /repo status --porcelain').stdout.strip():
+        print('repo not clean'); sys.exit(2)
+    if sh('git -C /repo apply ' + patch).returncode != 0:
+        print('patch does not apply'); sys.exit(2)
+    try:
+        os.makedirs('/verif/scratch/seedrun', exist_ok=True)
+        sh('cp /verif/known_findings.json /verif/scratch/seedrun/')
+        for cid in ids:
+            t0 = time.time()
+            r = sh('cd /verif && VERIF_ROOT=/verif/scratch/seedrun ./run.sh %s %s' % (cid, os.environ.get('TIER', 'quick')))
+            keys = re.findall(r'violation-key (.*)', r.stdout)
+            summ = re.findall(r'^SUMMARY.*', r.stdout, re.M)
+            results.append({'check': cid, 'tier': os.environ.get('TIER', 'quick'), 'exit': r.returncode, 'violation_keys': [k.strip() for k in keys],
+                            'summary': summ[0] if summ else '', 'wall_s': round(time.time() - t0, 1)})
+            print(cid, 'exit', r.returncode, keys[:6])
+    finally:
+        sh('git -C /repo checkout -- . ; git -C /repo clean -fdq')
 notes = open(d + '/notes.md').read() if os.path.exists(d + '/notes.md') else ''
 meta_path = d + '/meta.json'
 meta = json.load(open(meta_path)) if os.path.exists(meta_path) else {}
